@@ -433,6 +433,26 @@ func runC04(c *Ctx) {
 		for _, s := range sts {
 			gs := u.GuardStrings(s)
 			ok := len(gs) == 1 && gs[0] == "(logLevelPriority(level) <= logLevelPriority(ctx.LogLevel))"
+			// no other decision on the way to the append: every branch (or early return) that
+			// precedes it must be the priority test or the extras handling
+			Instrs(fn, func(in ssa.Instruction) {
+				ifi, isIf := in.(*ssa.If)
+				if !isIf {
+					return
+				}
+				if _, reach := ReachWithout(fn, in, isInstr(s), nil); !reach {
+					return
+				}
+				d := u.Describe(ifi.Cond)
+				if strings.Contains(d, "logLevelPriority(level)") && strings.Contains(d, "logLevelPriority(ctx.LogLevel)") {
+					return
+				}
+				if strings.Contains(d, "extras") || strings.Contains(d, "rangeindex") {
+					return
+				}
+				ok = false
+				gs = append(gs, "extra decision: "+d)
+			})
 			r.Check(ok, "R-LOG-FILTER", "ClientLog|append", u.Pos(s.Pos()), "append conditioned on exactly priority(level) <= priority(requested)",
 				"the log append is conditioned on {"+strings.Join(gs, " && ")+"} — it must depend on exactly priority(level) <= priority(ctx.LogLevel): any extra condition drops messages at or above the requested level, a missing one leaks lower levels")
 		}
